@@ -131,6 +131,39 @@ func registerStrings(e *Engine) {
 			cur = m.dropPrefix(cur, mkStr(cc))
 		}
 	}
+	in["strings.TrimRight"] = func(m *Machine, fr *frame, a []Value) Value {
+		s, cut := argStr(a[0]), argStr(a[1])
+		cc, ok := cut.Const()
+		if !ok {
+			panic(abort("strings.TrimRight with symbolic cutset"))
+		}
+		if cs, ok := s.Const(); ok {
+			return mkStr(strings.TrimRight(cs, cc))
+		}
+		if s.b != nil {
+			panic(abort("strings.TrimRight on byte-level string"))
+		}
+		segs := append([]Seg{}, s.segs...)
+		for len(segs) > 0 && segs[len(segs)-1].t == nil {
+			t := strings.TrimRight(segs[len(segs)-1].c, cc)
+			if t != "" {
+				segs[len(segs)-1] = Seg{c: t}
+				return Str{segs: segs}
+			}
+			segs = segs[:len(segs)-1]
+		}
+		if len(segs) > 0 {
+			last := segs[len(segs)-1].t
+			if !strings.HasPrefix(last.op, "line!") {
+				// bound: symbolic text does not end with a cutset character
+				for _, ch := range cc {
+					m.addPCAssume(TNot(TSuffixOf(TStr(string(ch)), last)))
+				}
+				m.note(fmt.Sprintf("bound: strings.TrimRight(%q) removes nothing from the symbolic part of a string", cc))
+			}
+		}
+		return Str{segs: segs}
+	}
 	in["strings.TrimSpace"] = func(m *Machine, fr *frame, a []Value) Value {
 		s := argStr(a[0])
 		if cs, ok := s.Const(); ok {
